@@ -179,8 +179,11 @@ constraint:
 				for _, co := range c.IndexedColumns {
 					st.column(co.Column).Null = false
 				}
-				st.setPK(st.toIndexColumns(c.IndexedColumns))
-				autoindex++
+				if !st.setPK(st.toIndexColumns(c.IndexedColumns)) {
+					// a key which takes over the index of an earlier UNIQUE
+					// doesn't use up a number
+					autoindex++
+				}
 				continue
 			}
 			name := fmt.Sprintf("sqlite_autoindex_%s_%d", st.Table, autoindex)
@@ -257,8 +260,9 @@ func (st *Schema) addIndex(pk bool, name string, cols []IndexColumn) bool {
 	return true
 }
 
-// sets the PK key (for non-rowid tables). Deletes any duplicate indexes.
-func (st *Schema) setPK(cols []IndexColumn) {
+// sets the PK key (for non-rowid tables). Deletes any duplicate indexes, and
+// returns whether there was one.
+func (st *Schema) setPK(cols []IndexColumn) bool {
 	st.PK = cols
 	for i, ind := range st.Indexes {
 		if sameKey(ind.Columns, cols) {
@@ -269,9 +273,10 @@ func (st *Schema) setPK(cols []IndexColumn) {
 			if len(st.Indexes) == 0 {
 				st.Indexes = nil // to make test diffs easier
 			}
-			return
+			return true
 		}
 	}
+	return false
 }
 
 // Two UNIQUE or PRIMARY KEY constraints are the same key, and share a single
